@@ -182,6 +182,101 @@ theorem binND_sum (s : Nat) (dims : List Nat) (v : List K) (h : v.length = fineS
       rw [List.map_flatten, sum_flatten', List.map_map]; rfl
     rw [e1, hflat, ← sum_flatten', chunks_flatten _ _ _ h]
 
+/-! ### per-axis factors -/
+
+theorem fineSizes_cons (s n : Nat) (ss rest : List Nat) :
+    fineSizes (s :: ss) (n :: rest) = n * s * fineSizes ss rest := by
+  simp [fineSizes]
+
+theorem fineSizes_replicate (s : Nat) (dims : List Nat) :
+    fineSizes (dims.map fun _ => s) dims = fineSize s dims := by
+  induction dims with
+  | nil => rfl
+  | cons n rest ih => simp only [List.map_cons, fineSizes_cons, fineSize_cons, ih]
+
+theorem fineSizes_eq (ss dims : List Nat) (hl : ss.length = dims.length) :
+    fineSizes ss dims = size dims * ss.foldr (· * ·) 1 := by
+  induction dims generalizing ss with
+  | nil => cases ss with
+    | nil => simp [fineSizes, size]
+    | cons s ss => simp at hl
+  | cons n rest ih => cases ss with
+    | nil => simp at hl
+    | cons s ss =>
+      simp only [List.length_cons, Nat.add_right_cancel_iff] at hl
+      rw [fineSizes_cons, size_cons, ih ss hl, List.foldr_cons]; ring
+
+/-- one common factor is the special case of per-axis factors -/
+theorem binNDs_replicate (s : Nat) (dims : List Nat) (v : List K) :
+    binNDs (dims.map fun _ => s) dims v = binND s dims v := by
+  induction dims generalizing v with
+  | nil => rfl
+  | cons n rest ih =>
+    simp only [List.map_cons, binNDs, binND, fineSizes_replicate]
+    congr 1
+    funext g
+    exact ih _
+
+theorem binNDs_length (ss dims : List Nat) (hl : ss.length = dims.length) (v : List K)
+    (h : v.length = fineSizes ss dims) : (binNDs ss dims v).length = size dims := by
+  induction dims generalizing v ss with
+  | nil =>
+    cases ss with
+    | nil => simpa [binNDs, size, fineSizes] using h
+    | cons s ss => simp at hl
+  | cons n rest ih =>
+    cases ss with
+    | nil => simp at hl
+    | cons s ss =>
+    simp only [List.length_cons, Nat.add_right_cancel_iff] at hl
+    rw [fineSizes_cons] at h
+    have hrows := chunks_mem_length (fineSizes ss rest) (n * s) v h
+    have hgl : (chunks s n (chunks (fineSizes ss rest) (n * s) v)).length = n := chunks_length _ _ _
+    have hg : ∀ g ∈ chunks s n (chunks (fineSizes ss rest) (n * s) v), ∀ c ∈ g, c.length = fineSizes ss rest := by
+      intro g hg c hc
+      apply hrows
+      rw [← groups_rows_flatten s n _ v h]
+      exact List.mem_flatten.mpr ⟨g, hg, hc⟩
+    simp only [binNDs, size_cons, List.length_flatMap]
+    have : ∀ g ∈ chunks s n (chunks (fineSizes ss rest) (n * s) v),
+        (binNDs ss rest (vsum (fineSizes ss rest) g)).length = size rest := by
+      intro g hg'
+      exact ih ss hl _ (vsum_length _ _ (hg g hg'))
+    rw [List.map_congr_left this]
+    simp [hgl]
+
+theorem binNDs_sum (ss dims : List Nat) (hl : ss.length = dims.length) (v : List K)
+    (h : v.length = fineSizes ss dims) : (binNDs ss dims v).sum = v.sum := by
+  induction dims generalizing v ss with
+  | nil =>
+    cases ss with
+    | nil => simp [binNDs]
+    | cons s ss => simp at hl
+  | cons n rest ih =>
+    cases ss with
+    | nil => simp at hl
+    | cons s ss =>
+    simp only [List.length_cons, Nat.add_right_cancel_iff] at hl
+    rw [fineSizes_cons] at h
+    have hrows := chunks_mem_length (fineSizes ss rest) (n * s) v h
+    have hflat := groups_rows_flatten s n _ v h
+    have hg : ∀ g ∈ chunks s n (chunks (fineSizes ss rest) (n * s) v), ∀ c ∈ g, c.length = fineSizes ss rest := by
+      intro g hg c hc
+      apply hrows
+      rw [← hflat]
+      exact List.mem_flatten.mpr ⟨g, hg, hc⟩
+    simp only [binNDs, List.flatMap_def, sum_flatten', List.map_map]
+    have : ∀ g ∈ chunks s n (chunks (fineSizes ss rest) (n * s) v),
+        (List.sum ∘ fun g => binNDs ss rest (vsum (fineSizes ss rest) g)) g = (g.map List.sum).sum := by
+      intro g hg'
+      simp only [Function.comp]
+      rw [ih ss hl _ (vsum_length _ _ (hg g hg')), vsum_sum _ _ (hg g hg')]
+    rw [List.map_congr_left this]
+    have e1 : ((chunks s n (chunks (fineSizes ss rest) (n * s) v)).map fun g => (g.map List.sum).sum).sum
+        = ((chunks s n (chunks (fineSizes ss rest) (n * s) v)).flatten.map List.sum).sum := by
+      rw [List.map_flatten, sum_flatten', List.map_map]; rfl
+    rw [e1, hflat, ← sum_flatten', chunks_flatten _ _ _ h]
+
 end sums
 
 end HcipyVerif.Binning
